@@ -298,6 +298,16 @@ def _skeleton_worker(args):
     return st_all
 
 
+def _family_worker(args):
+    idxs, driver_ok, dec_len, dec_runs = args
+    sys.path.insert(0, common.REPO)
+    fam = c05_gen.nested_try_family()
+    cases = [Case('nested-try-%d' % i, c05_gen.render(fam[i])) for i in idxs]
+    st = process(cases, driver_ok, True, dec_len, dec_runs)
+    st['fails'] = st['fails'][:40]
+    return st
+
+
 def _repo_worker(args):
     paths_idx, driver_ok = args
     sys.path.insert(0, common.REPO)
@@ -363,6 +373,7 @@ def check(run):
     run.rule = ('programs: every FunctionDef of /repo (graphs only) + control skeletons enumerated in canonical order '
                 '(all nestings of if/while/for(+else)/with/try-except-else-finally/break/continue/return/raise/nested def, '
                 'rich mode adds lambdas/class/return-lambda leaves; jumps only where legal; dead code included) up to a '
+                '[plus the targeted exhaustive family c05_gen.nested_try_family: try statements nested inside finally/handler/else parts of another try] '
                 'statement and depth bound, exhaustive below the bound, stride-sampled (seed-derived offset) above the cap; '
                 'per program the decision tree of the instrumented copy is enumerated depth-first up to a length/run bound. '
                 'A case is a (program) or (program, decision vector); non-trivial = the function graph has more than 2 nodes')
@@ -419,6 +430,16 @@ def check(run):
         absorb(run, st, 'progen')
         run.cov['progen_programs'] = {k: st[k] for k in ('programs', 'graphs', 'graph_equal', 'both_error', 'runs', 'walk_equal', 'pc_ok',
                                                           'pc_rejected_expected', 'max_nodes')}
+        merge_stats(total, dict(st, fails=[]))
+
+        # ---- targeted exhaustive family: try statements nested inside finally blocks / handlers / else blocks
+        nfam = len(c05_gen.nested_try_family())
+        st = new_stats()
+        for r in pool.map(_family_worker, [(list(range(k, nfam, 32)), run.driver_ok, cfg['dec_len'] + 1, 2 * cfg['dec_runs']) for k in range(32)]):
+            merge_stats(st, r)
+        absorb(run, st, 'nested-try')
+        run.cov['nested_try_family'] = dict({k: st[k] for k in ('programs', 'graphs', 'graph_equal', 'both_error', 'runs', 'walk_equal',
+                                                                'pc_ok', 'pc_rejected_expected', 'runs_exhaustive')}, size=nfam, exhaustive=True)
         merge_stats(total, dict(st, fails=[]))
 
         # ---- skeleton spaces
